@@ -600,6 +600,14 @@ static int __config_read(config_t *config, FILE *stream, const char *filename,
       libconfig_yy_delete_buffer(buf, scanner);
   }
 
+  if(scan_ctx.input_error)
+  {
+    /* A read error cut the input short; whatever the parser made of the
+     * truncated text, the call fails with an I/O error. */
+    __config_set_error(config, CONFIG_ERR_FILE_IO, __io_error);
+    r = 1;
+  }
+
   libconfig_yylex_destroy(scanner);
   config->filenames = libconfig_scanctx_cleanup(&scan_ctx);
   libconfig_parsectx_cleanup(&parse_ctx);
